@@ -149,6 +149,20 @@ def check(run):
                                      "list": [world_term(t) for t in s.suggest("body", text, limit=limit, maxdist=k, prefix=p)]}))
                         run.count(len(obs))
                         qs.append({"q": aq, "obs": obs})
+                        if p == 1 and k >= 1:
+                            # the same fuzzy query with and without its required prefix, side by side in one compound
+                            # that is rewritten the way the parser does it (they are different queries)
+                            aq0 = dict(aq, prefix=0)
+                            for op in ("or", "and"):
+                                tw = {"op": op, "kids": [aq, aq0] if op == "or" else [aq0, aq], "b4": 4}   # (the first of two "equal" clauses survives a faulty duplicate elimination)
+                                o2 = []
+                                try:
+                                    o2.append({"kind": "ids", "path": "FuzzyTerm(%dseg) with and without the prefix, %s, normalized" % (nseg, op),
+                                               "ids": sorted(int(d) for d in s.docs_for_query(world.to_query(tw).normalize()))})
+                                except Exception as ex:
+                                    o2.append({"kind": "error", "path": "fuzzy twins", "err": type(ex).__name__, "msg": str(ex)[:100]})
+                                run.count(len(o2))
+                                qs.append({"q": tw, "obs": o2})
             # fuzzy matching on that stemmed field goes by its terms (the stems), whatever it keeps for spelling
             for text in (u"render", u"rendr", u"shade", u"shad", u"light", u"lihgt", u"track", u"trac", u"rendering"):
                 for k in (0, 1, 2):
